@@ -1,5 +1,6 @@
 //! insim_sim — deterministic simulation checks for insim.rs. See /verif/DESIGN.md.
 
+mod alloc;
 mod driver;
 mod exec;
 mod gen;
@@ -14,6 +15,9 @@ mod streamprop;
 use std::path::PathBuf;
 
 use driver::{Opts, Prop, Tier};
+
+#[global_allocator]
+static GLOBAL: alloc::Counting = alloc::Counting;
 
 fn usage() -> ! {
     eprintln!("usage: insim_sim <property-id> <quick|thorough> [--runs N] [--workers N] [--hashes FILE] [--no-evidence]\n       insim_sim <property-id> --replay <file>");
@@ -89,6 +93,7 @@ fn main() {
         "C07" => go(props::c07::C07, rest),
         "C08" => go(props::c08::C08, rest),
         "C09" => go(props::c09::C09, rest),
+        "C17" => go(props::c17::C17, rest),
         "C18" => go(props::c18::C18, rest),
         "C19" => go(props::c19::C19, rest),
         "C20" => go(props::c20::C20, rest),
